@@ -58,7 +58,44 @@ func checkC09(c *Ctx) {
 	// C09.10 collected votes are discarded only when they cannot form a certificate any more: the block is
 	// unknown locally, or not newer than the high QC, or its certificate was just created from them
 	for _, w := range ws {
-		if w.Kind != "delete" || w.Fresh {
+		if w.Fresh {
+			continue
+		}
+		if w.Kind == "clear" {
+			c.Violated("C09.10", "verifiedVotes: votes are discarded only when obsolete", p.InstrPos(w.Instr), "all collected votes are discarded at once")
+			continue
+		}
+		if w.Kind == "deletefunc" {
+			// maps.DeleteFunc(verifiedVotes, pred): every way pred answers true says that the entry is obsolete
+			del := w.Instr.(*ssa.Call)
+			cl, _ := resolveClosure(NewFlow(p, w.Fn), del.Call.Args[1])
+			ok := cl != nil
+			if cl != nil {
+				pfl := NewFlow(p, cl)
+				ways := trueEdges(pfl)
+				ok = len(ways) > 0
+				for _, way := range ways {
+					obsolete := false
+					for f := range way {
+						switch {
+						case f.Op == "false" && strings.HasPrefix(f.L, "(*hs/security/blockchain.Blockchain).LocalGet(") && strings.Contains(f.L, ", p0)") && strings.HasSuffix(f.L, "#1"):
+							obsolete = true
+						case f.Op == "<=" && strings.HasPrefix(f.L, kBlockView+"(*hs/security/blockchain.Blockchain).LocalGet(") && strings.Contains(f.L, ", p0)") &&
+							strings.HasPrefix(f.R, kQCView+"(*hs/protocol.ViewStates).HighQC("):
+							obsolete = true
+						}
+					}
+					if !obsolete {
+						ok = false
+					}
+				}
+			}
+			c.Check(ok, "C09.10", "verifiedVotes: votes are discarded only when obsolete", p.InstrPos(del),
+				"maps.DeleteFunc removes an entry only when its block is unknown or not newer than the high QC (every true outcome of the predicate)",
+				"the predicate given to maps.DeleteFunc can answer true for a block that is known and newer than the high QC: collected votes are discarded while a certificate can still form")
+			continue
+		}
+		if w.Kind != "delete" {
 			continue
 		}
 		del := w.Instr.(*ssa.Call)
